@@ -695,6 +695,49 @@ def gen_raw_session(rng, max_cells):
     return cells
 
 
+# a value that survives a failing cell is the value it was: compared (COMPARE, map / set / big_map lookup) with a FRESH copy of itself
+IDENT_VALUES = [
+    ('or nat nat', ['Left {k}', 'Right {k}']), ('or nat string', ['Left {k}', 'Right "r{k}"']), ('option nat', ['Some {k}', 'None']),
+    ('option (or unit bool)', ['Some (Left Unit)', 'Some (Right False)', 'None']), ('pair nat (or nat string)', ['Pair {k} (Left {k})', 'Pair {k} (Right "x")']),
+    ('or (pair nat nat) unit', ['Left (Pair {k} {k})', 'Right Unit']), ('string', ['"s{k}"', '""']), ('bytes', ['0x0{k}', '0x']), ('bool', ['False', 'True']),
+    ('unit', ['Unit']), ('key_hash', ['"tz1VSUr8wwNhLAzempoch5d6hLRiTh8Cjcjb"']), ('address', ['"KT1BEqzn5Wx8uJrZNvuS9DVHmLvG9td3fDLi%ep{k}"']),
+    ('pair (option string) (option bytes)', ['Pair (Some "") (Some 0x)', 'Pair None None']),
+]
+
+
+def gen_identity_session(rng):
+    t, lits = rng.choice(IDENT_VALUES)
+    k = rng.randrange(0, 3)
+    lit = rng.choice(lits).format(k=k)
+    other = rng.choice(lits).format(k=rng.randrange(0, 3))
+    cells = []
+    shape = rng.randrange(4)
+    if shape == 0:
+        cells.append(f'PUSH ({t}) ({lit})' if ' ' in lit else f'PUSH ({t}) {lit}')
+    elif shape == 1:
+        cells.append(f'EMPTY_MAP ({t}) nat ; PUSH nat 7 ; SOME ; PUSH ({t}) ({lit}) ; UPDATE')
+    elif shape == 2:
+        cells.append(f'EMPTY_SET ({t}) ; PUSH bool True ; PUSH ({t}) ({lit}) ; UPDATE')
+    else:
+        cells.append(f'EMPTY_BIG_MAP ({t}) nat ; PUSH nat 7 ; SOME ; PUSH ({t}) ({lit}) ; UPDATE')
+    fails = ['PUSH nat 1 ; FAILWITH', 'DIP {{ UNIT ; FAILWITH }}', 'DUP ; DROP ; UNIT ; FAILWITH', 'DROP ; UNIT ; FAILWITH', 'FAILWITH', 'DIG 5', 'PUSH int 1 ; PUSH string "x" ; ADD']
+    for _ in range(rng.randrange(1, 3)):
+        cells.append(rng.choice(fails).format())
+    # (no DUP in the probes: the copy DUP makes would be compared instead of the value the failing cell left behind)
+    if shape == 0:
+        probes = [f'PUSH ({t}) ({rng.choice([lit, lit, other])}) ; COMPARE']
+    elif shape == 2:
+        probes = [f'PUSH bool True ; PUSH ({t}) ({lit}) ; UPDATE', f'PUSH bool True ; PUSH ({t}) ({other}) ; UPDATE', rng.choice(['SIZE', f'PUSH ({t}) ({lit}) ; MEM'])]
+    else:
+        probes = [f'PUSH nat 9 ; SOME ; PUSH ({t}) ({lit}) ; UPDATE', f'NONE nat ; PUSH ({t}) ({other}) ; UPDATE',
+                  rng.choice([f'PUSH ({t}) ({lit}) ; GET', f'PUSH ({t}) ({other}) ; MEM'] + (['SIZE'] if shape == 1 else []))]
+    for pr in probes:
+        cells.append(pr)
+        if rng.random() < 0.3:
+            cells.append(rng.choice(fails).format())
+    return cells
+
+
 def shrink_raw(cells):
     cur = list(cells)
     changed = True
@@ -797,7 +840,7 @@ def run(ctx):
                              gl[j] if j < len(gl) else '(missing)', ml[j] if j < len(ml) else '(missing)')
     # ---- raw-text stream: property oracle on the real interpreter only
     n_raw = 700 if quick else 6000
-    raws = [list(c) for c in RAW_REGRESSIONS] + [gen_raw_session(ctx.rng, 7 if quick else 14) for _ in range(n_raw)]
+    raws = [list(c) for c in RAW_REGRESSIONS] + [gen_raw_session(ctx.rng, 7 if quick else 14) for _ in range(n_raw)] + [gen_identity_session(ctx.rng) for _ in range(n_raw // 2)]
     shrunk = 0
     for cells in raws:
         full = run_raw(cells)
